@@ -424,15 +424,22 @@ func (m mutation) String() string {
 }
 
 func (m mutation) render() string {
+	if m.Kind == "struct" {
+		return m.Path.String() + ": <" + m.Value.Class + ">"
+	}
 	if m.Value.Missing {
 		return m.Path.String() + ": <removed>"
 	}
 	return m.Path.String() + ": " + fmt.Sprint(m.Value.Value)
 }
 
-func applyMutations(root interface{}, ms []mutation) interface{} {
+func applyMutations(root interface{}, ms []mutation, freePort int) interface{} {
 	out := root
 	for _, m := range ms {
+		if m.Kind == "struct" {
+			out = structApply(out, m, freePort)
+			continue
+		}
 		out = treeEdit(out, m.Path, m.Value.Value, m.Value.Missing)
 	}
 	return out
@@ -655,4 +662,134 @@ func enumDependentCases(spell, fields []field) (out [][]mutation) {
 		}
 	}
 	return out
+}
+
+// ---- structural operator on server groups ------------------------------------------
+
+// structVariants: which servers a group keeps and what happens to its tls
+// section.
+var structVariants = []struct {
+	Class string
+	Keep  []string
+	TLS   string // removed | null
+}{
+	{"plain-only-tls-removed", []string{"dns"}, "removed"},
+	{"plain-only-tls-null", []string{"dns"}, "null"},
+	{"dnscrypt-only-tls-removed", []string{"dnscrypt"}, "removed"},
+	{"plain-and-dnscrypt-tls-removed", []string{"dns", "dnscrypt"}, "removed"},
+}
+
+// structuralFields lists the structural cases: every existing group reduced
+// (the others untouched), an added group in each reduced form (the base groups
+// keep their TLS servers), and every group including an added one reduced to
+// plain DNS without any tls section.
+func structuralFields(root interface{}) (out []field) {
+	groups, _ := treeGet(root, cfgPath{key("server_groups")})
+	gl, _ := groups.([]interface{})
+	mk := func(p cfgPath, prefix string) field {
+		f := field{Path: p, Kind: "struct"}
+		for _, v := range structVariants {
+			f.Values = append(f.Values, mutValue{Class: "struct:" + prefix + v.Class})
+		}
+		return f
+	}
+	for gi := range gl {
+		out = append(out, mk(cfgPath{key("server_groups"), idx(gi)}, ""))
+	}
+	out = append(out, mk(cfgPath{key("server_groups"), idx(len(gl))}, "added-group-"))
+	out = append(out, field{Path: cfgPath{key("server_groups")}, Kind: "struct", Values: []mutValue{
+		{Class: "struct:all-groups-plain-only-tls-removed"},
+		{Class: "struct:all-groups-and-added-group-plain-only-tls-removed"},
+	}})
+	return out
+}
+
+// reduceGroup keeps only the servers with the given protocols and removes or
+// nulls the tls section.
+func reduceGroup(g yaml.MapSlice, keep []string, tlsMode string) yaml.MapSlice {
+	g = deepCopy(g).(yaml.MapSlice)
+	srvs, _ := mapGet(g, "servers")
+	var kept []interface{}
+	for _, sv := range srvs.([]interface{}) {
+		p, _ := mapGet(sv.(yaml.MapSlice), "protocol")
+		for _, k := range keep {
+			if fmt.Sprint(p) == k {
+				kept = append(kept, sv)
+			}
+		}
+	}
+	g = mapSet(g, "servers", kept)
+	if tlsMode == "null" {
+		g = mapSet(g, "tls", nil)
+	} else {
+		g = mapDel(g, "tls")
+	}
+	return g
+}
+
+// addedGroup is a copy of the first group under new names, with its plain-DNS
+// and DNSCrypt servers on fresh ports (the TLS servers are dropped by every
+// variant anyway).
+func addedGroup(g yaml.MapSlice, freePort int) yaml.MapSlice {
+	g = deepCopy(g).(yaml.MapSlice)
+	g = mapSet(g, "name", "c20_added_group")
+	srvs, _ := mapGet(g, "servers")
+	var out []interface{}
+	for _, sv := range srvs.([]interface{}) {
+		m := sv.(yaml.MapSlice)
+		p, _ := mapGet(m, "protocol")
+		if ps := fmt.Sprint(p); ps != "dns" && ps != "dnscrypt" {
+			continue
+		}
+		n, _ := mapGet(m, "name")
+		m = mapSet(m, "name", fmt.Sprint(n)+"_added")
+		ba, _ := mapGet(m, "bind_addresses")
+		var addrs []interface{}
+		port := freePort
+		freePort++
+		for _, a := range ba.([]interface{}) {
+			as := fmt.Sprint(a)
+			addrs = append(addrs, fmt.Sprintf("%s:%d", as[:strings.LastIndex(as, ":")], port))
+		}
+		m = mapSet(m, "bind_addresses", addrs)
+		out = append(out, m)
+	}
+	return mapSet(g, "servers", out)
+}
+
+func structApply(root interface{}, m mutation, freePort int) interface{} {
+	top := deepCopy(root).(yaml.MapSlice)
+	groups, _ := mapGet(top, "server_groups")
+	gl, _ := groups.([]interface{})
+	if len(gl) == 0 {
+		return top
+	}
+	cls := strings.TrimPrefix(m.Value.Class, "struct:")
+	variant := func(name string) (keep []string, tlsMode string) {
+		for _, v := range structVariants {
+			if v.Class == name {
+				return v.Keep, v.TLS
+			}
+		}
+		return []string{"dns"}, "removed"
+	}
+	switch {
+	case cls == "all-groups-plain-only-tls-removed", cls == "all-groups-and-added-group-plain-only-tls-removed":
+		if strings.Contains(cls, "added") {
+			gl = append(gl, addedGroup(gl[0].(yaml.MapSlice), freePort))
+		}
+		for i := range gl {
+			gl[i] = reduceGroup(gl[i].(yaml.MapSlice), []string{"dns"}, "removed")
+		}
+	case strings.HasPrefix(cls, "added-group-"):
+		keep, tlsMode := variant(strings.TrimPrefix(cls, "added-group-"))
+		gl = append(gl, reduceGroup(addedGroup(gl[0].(yaml.MapSlice), freePort), keep, tlsMode))
+	default:
+		keep, tlsMode := variant(cls)
+		gi := m.Path[len(m.Path)-1].Idx
+		if gi < len(gl) {
+			gl[gi] = reduceGroup(gl[gi].(yaml.MapSlice), keep, tlsMode)
+		}
+	}
+	return mapSet(top, "server_groups", gl)
 }
